@@ -50,7 +50,7 @@ def floors(ctx):
          "cases_with_big_attrs": 20, "cases_with_classes_pickled_by_value": 20 if q else 100,
          "cases_with_by_value_class_using_super": 10 if q else 60, "cases_with_slotted_subclass": 20,
          "cases_with_classes_defined_in_a_script_main": 10,
-         "deep_graphs_referred_to_by_a_by_value_closure": 2}
+         "deep_graphs_referred_to_by_a_by_value_closure": 2, "cases_with_values_of_str_or_int_subclasses": 50}
     for p in range(6):
         f[f"proto{p}"] = 10
     f["protodefault"] = 5
@@ -82,6 +82,13 @@ def decorate(rng, objs, mode):
             v.weight = rng.choice([0, -1, 2.5, 10 ** 20, float("inf")])
         if rng.random() < 0.3:
             v.data = [1, 2.5, None, "s", [3, (4, 5)], {"k": [6]}]
+        if rng.random() < 0.4:
+            # values that EQUAL plain strings / ints written elsewhere in the same dump (attribute names, idx
+            # values) without being plain strings / ints
+            v.kind_tag = zoo.Tag(rng.choice(["idx", "_uid", "note", "a"]))
+            v.level = zoo.Level(rng.randrange(3))
+            v.colour = rng.choice(list(zoo.Colour))
+            v.rank = [zoo.Rank(rng.randrange(2)), rng.randrange(2), "idx", zoo.Tag("idx")]
     if mode == "big":
         # size thresholds of the pickle framing layer (64 KiB) and of small-int / short-string fast paths
         vs[0].text = "x" * 65536
@@ -331,6 +338,8 @@ def run_case(ctx, rng, cfg, desc, root, objs_all, batch):
     finally:
         Vertex.NEIGHBOR_CACHING = False
     ctx.evaluated()
+    if "instance_of" in json.dumps(form0):
+        ctx.count("cases_with_values_of_str_or_int_subclasses")
     if any("slots" in n for n in form0["nodes"]):
         if res[0] != "ok" and res[1] is TypeError and cfg["proto"] in (0, 1) \
                 and oracles.outcome(pickle.dumps, zoo.VSlots(), cfg["proto"])[0] == "exc":
@@ -507,7 +516,7 @@ def run(ctx):
         ctx.count("deep_graph_cases")
         run_case(ctx, rng, cfg, desc, objs[0] if desc["source"] == "byvalue" else objs[-1], objs, batch)
     # random graphs
-    n_rand = 1200 if quick else 3000
+    n_rand = ctx.n(1200 if quick else 3000)
     for i in range(n_rand):
         if rng.random() < 0.6:
             desc = {"source": "history", "seed": rng.randrange(10 ** 9), "nops": rng.randint(10, 60), "nv": rng.randint(3, 5)}
